@@ -51,6 +51,8 @@ type TestSpec struct {
 	// Reuse: the callback test is built once with z.TestFunc(code, fn), copied by value, the copy is
 	// specialised with the options and registered with schema.Test(copy)
 	Reuse bool
+	// Raw: the callback test is a raw z.Test{Func} that adds its own issue through ctx.AddIssue
+	Raw bool
 }
 
 func (t TestSpec) Sx(ext *Ext) *sx.Node {
@@ -157,7 +159,8 @@ type Node struct {
 	PreMsg  string
 	PreIss  PostSpec // failissue: Code Path Msg DType
 
-	rtype reflect.Type
+	rtype    reflect.Type
+	rtypeAlt reflect.Type
 }
 
 func (n *Node) DType() string {
